@@ -474,6 +474,8 @@ impl DOP853 {
                         nonstiff = 0;
                         iasti += 1;
                         if iasti == 15 {
+                            // the step is abandoned: it was never applied nor reported
+                            steps.accepted -= 1;
                             status = Status::ProbablyStiff;
                             break;
                         }
